@@ -129,6 +129,24 @@ def popcountGeneric64 (x : BitVec 64) : Nat :=
 
 def popcountOverload (x : BitVec w) : Nat := specPopcount x
 
+/-- an unaligned little-endian load of `bs.length` bytes (`memcpy` into an integer on x86;
+    the byte order is irrelevant for the bit count) -/
+def loadLE (w : Nat) : List (BitVec 8) → BitVec w
+  | [] => 0#w
+  | b :: bs => (loadLE w bs <<< 8) ||| b.setWidth w
+
+/-- the tail of `popcount(const void*, size_t)`: `if (begin + 3 < end)` one 32-bit word, then bytes -/
+def popcountBufTail : List (BitVec 8) → Nat
+  | b0 :: b1 :: b2 :: b3 :: rest =>
+    popcountOverload (loadLE 32 [b0, b1, b2, b3]) + (rest.map fun b => popcountOverload b).sum
+  | bs => (bs.map fun b => popcountOverload b).sum
+
+/-- `popcount(const void* data, size_t size)`: `while (begin + 7 < end)` 64-bit words first -/
+def popcountBuf : List (BitVec 8) → Nat
+  | b0 :: b1 :: b2 :: b3 :: b4 :: b5 :: b6 :: b7 :: rest =>
+    popcountOverload (loadLE 64 [b0, b1, b2, b3, b4, b5, b6, b7]) + popcountBuf rest
+  | bs => popcountBufTail bs
+
 /-! ## integer_log2.hpp -/
 
 /-- `while (i >= 65536) i >>= 16, p += 16;` (and the same with 256 / 8) -/
